@@ -69,6 +69,8 @@ def build_cases(seed: int, deep: bool) -> List[Tuple[str, List[Dict[str, Any]], 
             cfgs = [base, dict(base, log_level=20, order="rev"), dict(base, timecode=True, log_level=40)]
         if deep and not heavy_case:
             cfgs += [dict(base, log_level=30, timing=False), dict(base, order="rev")]
+        if name.startswith(("traffic_", "type_", "nested_periodic", "debug_tick", "info_subscriber")):
+            cfgs = cfgs + [dict(base, timing=False, timecode=True)]     # statistics without TIMING_MESSAGE, long header
         if not deep and name.startswith(("cut_", "leave_", "ident_", "debug_")):
             cfgs = [cfgs[rng.randrange(len(cfgs))]]
         for i, cfg in enumerate(cfgs):
